@@ -1409,6 +1409,8 @@ def _peer_compare(res, op, im, mo):
                 return "background tasks left behind (impl bucket %s, model 0)" % ac[1]
             if len(ac) > 3 and len(bc) > 2 and int(ac[3]) > int(bc[2]):
                 return "watchdog tasks of closed connections still running (impl %s, model %s)" % (ac[3], bc[2])
+            if len(ac) > 4 and len(bc) > 3 and int(ac[4]) > int(bc[3]):
+                return "answer handlers that never returned (impl %s, model %s)" % (ac[4], bc[3])
     return None
 
 
@@ -1420,6 +1422,8 @@ def _explore_peer(ctx, res, replay_ops, which):
         kind = "count" if any(x.startswith("N") for x in steps) else "faults"
         res.dist["scenario:" + kind] += 1
         for x in steps:
+            if x[0] == "D":
+                res.dist["answers-delivered-%s-times" % x[1:]] += 1
             if x[0] in "AR":
                 d = int(x[1:])
                 res.dist["%s-delay:%s" % (x[0], "prompt" if d < 5000 else "late" if d < 20000 else "lost")] += 1
@@ -1448,6 +1452,8 @@ def _explore_peer(ctx, res, replay_ops, which):
                 f = tok[2:].split(":")
                 if int(f[0]) > 0 or f[1] != "0":
                     bad = "connections / background tasks left behind after completed requests: %s established, goroutine bucket %s" % (f[0], f[1])
+                elif len(f) > 4 and int(f[4]) > 0:
+                    bad = "%s answer handler task(s) (HandleSUA/HandleCCA) left behind, blocked for ever, after the requests had returned" % f[4]
                 elif len(f) > 3 and int(f[3]) > 0:
                     bad = ("%s go-diameter watchdog task(s) still running after every request had returned and every connection was closed "
                            "(one per request whose answer did not arrive within the timeout; %s goroutines above the baseline)" % (f[3], f[2]))
@@ -1469,7 +1475,9 @@ def _explore_peer(ctx, res, replay_ops, which):
                 "sleeps in the store look-up they make: 10/100 (thorough 1000) prompt online updates followed by a count of established "
                 "connections to the peers' ports (/proc/self/net/tcp) and of goroutines; account-balance and rating answers delayed beyond "
                 "the 5 s timeout (6.5 s) or lost (40 s), followed at once / after 3 s / with a 2.5 s answer by further updates; random "
-                "patterns of prompt / 0.8 s / 2.5 s / late / lost answers. Every update must complete within 14 s and act only on the "
+                "patterns of prompt / 0.8 s / 2.5 s / late / lost answers, each answer delivered once, twice or three times (a relay in front "
+                "of the real servers repeats it); runs of timed-out requests followed by a count of go-diameter watchdog goroutines and of "
+                "answer handlers that have not returned. Every update must complete within 14 s and act only on the "
                 "answer to its own account-balance request (identified by the amount: each request tops up by a distinct sum of powers "
                 "of two); observations are compared with the client machines of Model/DiamClient.lean (who answered, elapsed time within "
                 "%d ms, open connections)" % PEER_TOL_MS)
